@@ -599,3 +599,14 @@ Proof.
         -- exact Wnlen.
       * reflexivity.
 Qed.
+
+(** the same as a statement about [pre_loop] with the fuel the readers give it: in front of
+    anything that does not begin with 'c' (the problem line) the loop returns the state that
+    stands for [vs] *)
+Theorem pre_loop_print_vars co vs R : wf_vars_b vs = true -> starts_with 99 R = false ->
+  exists st, pre_loop (S (length (print_vars vs ++ R))) co ps_init (print_vars vs ++ R) = POk (st, R) /\
+             pre_before st = true /\ pre_after st (vs_len vs) = true /\ varset_of st (vs_len vs) = vs.
+Proof.
+  intros Hwf HR. destruct (steps_print_vars co vs R Hwf) as (st & Hs & Hb & Ha & Hv & _).
+  exists st. split; [|auto]. apply pre_loop_run; [exact Hs|apply pre_step_break; exact HR].
+Qed.
